@@ -139,7 +139,12 @@ func (DidOracle) State(w *world.World, ctx sdk.Context, st *engine.State) []engi
 	// the same account under two spellings (bech32 and hex addresses are case-insensitive) is still one account
 	canonAcc := map[string][]string{}
 	for _, acc := range sortedKeys(s.Dids) {
-		canonAcc[strings.ToLower(acc)] = append(canonAcc[strings.ToLower(acc)], acc)
+		// an account id is network:chain:address; case and anything after a third ':' do not make another account
+		c := strings.ToLower(acc)
+		if p := strings.SplitN(c, ":", 4); len(p) == 4 {
+			c = strings.Join(p[:3], ":")
+		}
+		canonAcc[c] = append(canonAcc[c], acc)
 	}
 	for _, c := range sortedKeys(canonAcc) {
 		if len(canonAcc[c]) > 1 {
@@ -297,8 +302,13 @@ func didOps(w *world.World, ctx sdk.Context, tier string) []engine.Op {
 			other = sidD2
 		}
 		accts := accts
-		if sd == sidD2 && ethChecksum != ethId {
-			accts = append(append([]acct{}, accts...), acct{"Ec", ethChecksum, nil})
+		if sd == sidD2 {
+			accts = append([]acct{}, accts...)
+			if ethChecksum != ethId {
+				accts = append(accts, acct{"Ec", ethChecksum, nil})
+			}
+			// the first cosmos account again, with a trailing segment after the address
+			accts = append(accts, acct{didNames[didAccts[0]] + "x", w.A(didAccts[0]).AccountId() + ":1", w.A(didAccts[0])})
 		}
 		for _, ac := range accts {
 			creators := []int{world.W}
